@@ -207,7 +207,7 @@ def apply_ghost(text, label, ghost, report):
     secs = ghost.get(label)
     extra_items = []
     # loop ordinals refer to the extracted text: mark every loop keyword before anything moves
-    if any(s_[0] in ("desugar", "loop", "body", "afterloop", "beforeloop") for s_ in secs):
+    if any(s_[0] in ("desugar", "loop", "body", "afterloop", "beforeloop", "loopattr", "exhausted") for s_ in secs):
         pos0 = loop_positions(text)
         for k in range(len(pos0), 0, -1):
             kw_i = pos0[k - 1][0]
@@ -370,9 +370,9 @@ def apply_ghost(text, label, ghost, report):
             itn = "it__%d" % k
             mk = "/*@L%d*/" % k
             if newit.startswith("@"):
-                head = "{ %sloop { match %s { None => break, Some(%s) => {" % (mk, newit[1:], m.group(1))
+                head = "{ %sloop { match %s { None => { break }, Some(%s) => {" % (mk, newit[1:], m.group(1))
             else:
-                head = "{ let mut %s = %s; %sloop { match %s.nxt() { None => break, Some(%s) => {" % (itn, newit, mk, itn, m.group(1))
+                head = "{ let mut %s = %s; %sloop { match %s.nxt() { None => { break }, Some(%s) => {" % (itn, newit, mk, itn, m.group(1))
             text = text[:kw_i - len(mk)] + head + text[brace_i + 1:cb] + "} } } }" + text[cb + 1:]
             _bump(report, "N4 for-loop desugared to loop/match over a specified iterator")
     for kind, arg, body in secs:
@@ -393,6 +393,24 @@ def apply_ghost(text, label, ghost, report):
     base = text
     # ---------------- phase B (insert-only)
     for kind, arg, body in secs:
+        if kind == "exhausted":
+            # inside the `None => { break }` arm of a desugared loop (the iterator is exhausted here)
+            k = int(arg.split()[0])
+            kw_i, brace_i, kw = marked_loop(k)
+            m = re.match(r"\{ match [^{]*? \{ None => \{", text[brace_i:])
+            if not m:
+                raise Undecided("loop #%d in %s is not a desugared loop" % (k, label))
+            at = brace_i + m.end()
+            text = text[:at] + "\n" + "\n".join(tag(["    " + l.strip() for l in body if l.strip()])) + "\n" + text[at:]
+            continue
+        if kind == "loopattr":
+            k = int(arg.split()[0])
+            mk = "/*@L%d*/" % k
+            i_ = text.find(mk)
+            if i_ < 0:
+                raise Undecided("lost anchor in %s: loop #%d" % (label, k))
+            text = text[:i_] + "\n" + "\n".join(tag([l.strip() for l in body if l.strip()])) + "\n" + text[i_:]
+            continue
         if kind in ("body", "afterloop", "beforeloop"):
             k = int(arg.split()[0])
             kw_i, brace_i, kw = marked_loop(k)
@@ -403,7 +421,7 @@ def apply_ghost(text, label, ghost, report):
                 continue
             if kind == "body":
                 # desugared loops: the real body starts after `Some(PAT) => {`
-                m = re.match(r"\{ match [^{]*? \{ None => break, Some\(.*?\) => \{", text[brace_i:])
+                m = re.match(r"\{ match [^{]*? \{ None => \{(?:(?!Some\().)*?break \}, Some\(.*?\) => \{", text[brace_i:], re.S)
                 at = brace_i + (m.end() if m else 1)
             else:
                 at = rustlex.match_brace(rustlex.mask(text), brace_i) + 1
